@@ -82,7 +82,7 @@ func c17(r *vlib.Run) int {
 			c17Damaged(r, i, crng, keys, keyFiles, client)
 			return
 		}
-		if i%16 == 5 {
+		if i%8 == 5 {
 			c17OutputModes(r, i, crng, keys, keyFiles, client)
 			return
 		}
@@ -456,16 +456,33 @@ func c17OutputModes(r *vlib.Run, i int, rng *rand.Rand, keys []*vlib.Key, keyFil
 	mode := [][]string{{"--plain"}, {"--quiet"}, {"--plain", "--quiet"}, {"--noColor"}, {"--quiet", "--noColor"}}[rng.Intn(5)]
 	args := append([]string{"--cfg", "none", "--logger", "none", "--key", keyFile, "--user", "tester", "--servers", addr, "--files", "/var/log/x.log"}, mode...)
 	pr, pw, _ := os.Pipe()
-	if rng.Intn(2) == 0 {
+	// what the prompt finds on standard input: nothing yet (the user has not answered), refusals, or the end of input
+	// (cron, CI, </dev/null, ^D) - at once, after looking at the details, after an answer that is none
+	stdinMode := []string{"open", "n-then-open", "eof", "d-then-eof", "garbage-then-eof", "devnull"}[rng.Intn(6)]
+	switch stdinMode {
+	case "n-then-open":
 		pw.WriteString("n\nn\nn\n")
+	case "eof":
+		pw.Close()
+	case "d-then-eof":
+		pw.WriteString("d\n")
+		pw.Close()
+	case "garbage-then-eof":
+		pw.WriteString("maybe\n\n")
+		pw.Close()
 	}
 	defer pw.Close()
 	p := fmt.Sprintf("/proc/%d/fd/%d", os.Getpid(), pr.Fd())
+	if stdinMode == "devnull" {
+		p = "/dev/null"
+	}
 	res := vlib.RunCmd(vlib.Cmd{Path: r.Bin("dcat"), Args: args, Env: []string{"HOME=" + home}, Dir: home, StdinFile: p, Watchdog: 12 * time.Second, NoHangCheck: true})
 	pr.Close()
 	_ = res // a client that waits for an answer nobody gives is ended by the watchdog: judged by what the server saw
-	r.Eval(fmt.Sprintf("output-mode|%v|%v", mode, known))
+	r.Eval(fmt.Sprintf("output-mode|%v|%v|%s", mode, known, stdinMode))
 	r.Count("output_mode_cases", 1)
+	r.Count("prompt_input_"+stdinMode, 1)
+	mode = append(mode, "stdin:"+stdinMode)
 	got := false
 	for _, e := range f.Events() {
 		if e.Ev == "shell" || e.Ev == "data" {
